@@ -448,7 +448,7 @@ pub fn ref_member(kind: usize, s: &[u8]) -> Rec {
 
 pub const MUT_LEN: usize = 40;
 /// (production, text): 0 type, 1 typedef, 2 method, 3 error.
-pub const CORPUS: [(usize, &str); 28] = [
+pub const CORPUS: [(usize, &str); 33] = [
     (0, "?[string]?int"),
     (0, "[]?[string]bool"),
     (0, "(a: int, b)"),
@@ -478,6 +478,12 @@ pub const CORPUS: [(usize, &str); 28] = [
     (1, "type T(a:T,b)"),
     (2, "method M()->()"),
     (3, "error E(a:T)"),
+    // minimal texts (2-5 bytes)
+    (0, "?T"),
+    (0, "[]T"),
+    (0, "(a)"),
+    (0, "(a,b)"),
+    (0, "(a:T)"),
 ];
 
 /// Corpus text S with an arbitrary ASCII byte at position POS.
